@@ -14,5 +14,46 @@ type (
 	Once      = vsched.Once
 	Locker    = sync.Locker
 	Map       = sync.Map
-	Pool      = sync.Pool
 )
+
+// Pool: a deterministic sync.Pool - last in, first out, never dropped within one execution (a legal and the
+// most adversarial behaviour of sync.Pool: whatever was Put is what the next Get returns), emptied between
+// executions so that no state leaks from one explored schedule into the next.
+type Pool struct {
+	New   func() any
+	mu    sync.Mutex
+	epoch uint64
+	items []any
+}
+
+func (p *Pool) sync() {
+	if e := vsched.Epoch(); e != p.epoch {
+		p.epoch, p.items = e, nil
+	}
+}
+
+func (p *Pool) Get() any {
+	p.mu.Lock()
+	p.sync()
+	if n := len(p.items); n > 0 {
+		x := p.items[n-1]
+		p.items = p.items[:n-1]
+		p.mu.Unlock()
+		return x
+	}
+	p.mu.Unlock()
+	if p.New != nil {
+		return p.New()
+	}
+	return nil
+}
+
+func (p *Pool) Put(x any) {
+	if x == nil {
+		return
+	}
+	p.mu.Lock()
+	p.sync()
+	p.items = append(p.items, x)
+	p.mu.Unlock()
+}
